@@ -290,7 +290,7 @@ def isNamed : Tok → Bool
 theorem leaves_kids (p : Parts) : leaves G p.kids = (p.yield.filter isNamed).map (itemOfTok G) := by
   induction p with
   | done => simp [Parts.kids, Parts.yield, leaves]
-  | kw k r ih => simp [Parts.kids, Parts.yield, List.filter_cons, isNamed, ih]
+  | kw k r ih => simp [Parts.kids, Parts.yield, isNamed, ih]
   | tok t s r ih => simp [Parts.kids, Parts.yield, leaves, List.filter_cons, isNamed, ih]
   | sub f b r ihb ihr => simp [Parts.kids, Parts.yield, leaves, ihb, ihr]
   | stop r ih => simp [Parts.kids, Parts.yield, ih]
@@ -499,7 +499,7 @@ theorem stmt_link {f : Form} {kws : List Nat} {nv : Nat} {b : Parts} (hs : shape
       obtain ⟨k, _, rfl⟩ := ht
       simp [isNamed]
     simp only [itemsOf, Parts.yield, List.filter_append, hk, filter_named_all hns, List.map_append, List.map_map,
-      List.nil_append, List.filter_cons, isNamed, List.filter_nil, List.map_cons, List.map_nil, List.append_nil]
+      List.nil_append, List.filter_cons, isNamed, List.filter_nil, List.map_cons, List.map_nil]
     have : itemOfTok G (Tok.kw s) = .plain C10.semi := kwItem_of_kwIs G hsemi
     rw [this]
     simp [itemOfTok, kwItem, Function.comp_def]
@@ -1011,6 +1011,22 @@ theorem derive_sound {t : Tree} {d : Deriv} (h : derive G t = some d) :
   obtain ⟨h1, h2, h3, h4, h5⟩ := deriveNode_sound G _ _ _ _ _ _ hfb
   refine ⟨by simp [Deriv.WF, h1, h4], h2, ?_⟩
   simp [C10.toTree, h3, h5]
+
+theorem joinDot_contains {c : Nat} {x : Text} (hx : c ∈ x) : ∀ (path : List Text), x ∈ path → c ∈ joinDot path := by
+  intro path
+  induction path with
+  | nil => intro h; simp at h
+  | cons y r ih =>
+    intro h
+    cases r with
+    | nil =>
+      simp only [List.mem_cons, List.not_mem_nil, or_false] at h
+      subst h; simpa [joinDot] using hx
+    | cons z r' =>
+      simp only [joinDot, List.mem_append, List.mem_cons]
+      rcases List.mem_cons.mp h with h | h
+      · subst h; exact .inl hx
+      · exact .inr (.inr (ih h))
 
 /-! ### the cache -/
 
